@@ -220,6 +220,35 @@ class ModelWhich:
         return '/usr/bin/' + exe
 
 
+class _Stamp:
+    def __init__(self, n):
+        self.n = n
+
+    def strftime(self, fmt):
+        return '%014d' % (20260101000000 + self.n)
+
+
+class ModelDatetime:
+    """deterministic clock for the backup folder name (CrossHair would make datetime.now() symbolic)"""
+
+    class timezone:
+        utc = None
+
+    class datetime:
+        count = 0
+
+        @classmethod
+        def now(cls, tz=None):
+            cls.count += 1
+            return _Stamp(cls.count)
+
+
+class ModelRandom:
+    @staticmethod
+    def choices(population, k=1):
+        return [population[0]] * k
+
+
 def install_backup(world):
     """patch the module globals of disk_objectstore.backup_utils (no source edits)"""
     B = world.B
@@ -229,3 +258,6 @@ def install_backup(world):
     B.tempfile = ModelTempfile(world.fs)
     B.shutil = ModelWhich
     B.Path = world.C.Path
+    B.datetime = ModelDatetime
+    B.random = ModelRandom
+    ModelDatetime.datetime.count = 0
